@@ -65,11 +65,21 @@ def run(ctx):
     except OSError:
         tkh = {}
     facts, missing = {}, []
+    # What the model assumes.  A fact that cannot be read any more (the code was rewritten) falls back to this
+    # value and is recorded as `untranslatable` in the evidence: a harmless rewrite never becomes an alarm through
+    # the generated file (DESIGN 4.1); the differential run still covers the function.
+    DEFAULTS = {"MOUSEEV_PRESS": 1, "MOUSEEV_DRAG": 2, "MOUSEEV_RELEASE": 3, "MOUSEEV_WHEEL": 4, "MOUSEWHEEL_UP": 1,
+                "MOUSEWHEEL_DOWN": 2, "KEYEV_KEY": 1, "KEYEV_TEXT": 2, "MOD_SHIFT": 1, "MOD_ALT": 2, "MOD_CTRL": 4,
+                "TERMKEY_MOUSE_UNKNOWN": 0, "TERMKEY_MOUSE_PRESS": 1, "TERMKEY_MOUSE_DRAG": 2, "TERMKEY_MOUSE_RELEASE": 3,
+                "TERMKEY_KEYMOD_SHIFT": 1, "TERMKEY_KEYMOD_ALT": 2, "TERMKEY_KEYMOD_CTRL": 4,
+                "wheelFirstButton": 4, "wheelOffsetBase": 4, "releaseLoopStart": 1, "strfkeyBuffer": 64,
+                "MSEC": 1000, "SECOND": 1000000, "positionDecrement": 1, "heldMaskShiftLimit": 31}
 
     def const(table, cname, lname, ty="Int"):
         if cname in table:
             facts[lname] = (ty, table[cname])
         else:
+            facts[lname] = (ty, DEFAULTS[lname])
             missing.append(cname)
 
     for c in ["TICKIT_MOUSEEV_PRESS", "TICKIT_MOUSEEV_DRAG", "TICKIT_MOUSEEV_RELEASE", "TICKIT_MOUSEEV_WHEEL",
@@ -88,6 +98,7 @@ def run(ctx):
         if m:
             facts[lname] = (ty, int(m.group(1)))
         else:
+            facts[lname] = (ty, DEFAULTS[lname])
             missing.append(lname)
 
     lit(r"ev\s*==\s*TERMKEY_MOUSE_PRESS\s*&&\s*info\.button\s*>=\s*(\d+)", got_key, "wheelFirstButton")
@@ -97,14 +108,15 @@ def run(ctx):
     lit(r"#\s*define\s+MSEC\s+(\d+)", term, "MSEC")
     lit(r"#\s*define\s+SECOND\s+(\d+)", term, "SECOND")
     # positions: TermKey is 1-based, Tickit is 0-based
-    dec = 1 if re.search(r"info\.line--\s*;\s*info\.col--\s*;", got_key) else 0
-    facts["positionDecrement"] = ("Int", dec)
-    if not dec:
+    if re.search(r"info\.line--\s*;", got_key) and re.search(r"info\.col--\s*;", got_key):
+        facts["positionDecrement"] = ("Int", 1)
+    else:
+        facts["positionDecrement"] = ("Int", DEFAULTS["positionDecrement"])
         missing.append("positionDecrement")
     # the held mask is a plain int: 31 value bits
     m = re.search(r"\b(unsigned\s+int|unsigned|int|long|unsigned\s+long)\s+mouse_buttons_held\s*;", term)
     held_ty = m.group(1) if m else None
-    facts["heldMaskShiftLimit"] = ("Nat", {"int": 31, "unsigned": 32, "unsigned int": 32, "long": 63, "unsigned long": 64}.get(held_ty, 0))
+    facts["heldMaskShiftLimit"] = ("Nat", {"int": 31, "unsigned": 32, "unsigned int": 32, "long": 63, "unsigned long": 64}.get(held_ty, DEFAULTS["heldMaskShiftLimit"]))
     if held_ty is None:
         missing.append("mouse_buttons_held")
 
